@@ -321,4 +321,122 @@ theorem buildDict_ren (lk : Link) :
 
 end
 
+/-! ### bases, direct children, closure -/
+
+section
+variable {σ : Nat → Nat} {r₁ r₂ : Registry} (h : RegRel σ r₁ r₂)
+include h
+
+theorem findIdentityBase_ren (dict : Dict) (root : Mod) (baseStr : String) :
+    findIdentityBase r₂ (dict.map (deRen σ)) (Mod.ren σ root) baseStr =
+      (findIdentityBase r₁ dict root baseStr).map (deRen σ) := by
+  unfold findIdentityBase
+  simp only [Mod.ren_getPrefix, Mod.ren_stmt, h.owner, h.findModuleByPrefix, dict_get?_ren]
+  split
+  · cases r₁.owner root with
+    | none => rfl
+    | some ow =>
+      simp only [Option.map_some, Mod.ren_name]
+      cases Dict.get? dict _ <;> rfl
+  · cases r₁.findModuleByPrefix root _ with
+    | none => rfl
+    | some ext =>
+      simp only [Option.map_some, h.owner]
+      cases r₁.owner ext with
+      | none => rfl
+      | some ow =>
+        simp only [Option.map_some, Mod.ren_name]
+        cases Dict.get? dict _ <;> rfl
+
+theorem resolvedBases_ren (dict : Dict) (e : DEntry) :
+    resolvedBases r₂ (dict.map (deRen σ)) (deRen σ e) =
+      (resolvedBases r₁ dict e).map (fun x => x.map (deRen σ)) := by
+  unfold resolvedBases
+  have h1 : (deRen σ e).root = σ e.root := rfl
+  have h2 : (deRen σ e).stmt = e.stmt := rfl
+  rw [h1, h2, h.byId]
+  cases r₁.byId e.root with
+  | none => rfl
+  | some root =>
+    simp only [Option.map_some, List.map_map]
+    apply List.map_congr_left
+    intro b _
+    exact findIdentityBase_ren h dict root b.arg
+
+theorem directOne_ren (dict : Dict) (acc : (Vtx → List Vtx) × List Err) (e : DEntry) :
+    directOne r₂ (dict.map (deRen σ)) acc (deRen σ e) = directOne r₁ dict acc e := by
+  unfold directOne
+  rw [resolvedBases_ren h, List.foldl_map]
+  congr 1
+  funext acc rb
+  cases rb <;> rfl
+
+theorem directAll_ren (dict order : Dict) (vals0 : Vtx → List Vtx) :
+    directAll r₂ (dict.map (deRen σ)) (order.map (deRen σ)) vals0 = directAll r₁ dict order vals0 := by
+  unfold directAll
+  rw [List.foldl_map]
+  congr 1
+  funext acc e
+  exact directOne_ren h dict acc e
+
+/-- The errors of `resolveIdentities`, and its dictionary. -/
+theorem resolveIdentities_ren (lk : Link) (vals0 : Vtx → List Vtx) :
+    (resolveIdentities (Oracle.ofNat 0) r₂ (lkRen σ lk) vals0).map (·.errs) =
+      (resolveIdentities (Oracle.ofNat 0) r₁ lk vals0).map (·.errs) := by
+  unfold resolveIdentities
+  rw [buildDict_ren h]
+  cases buildDict (Oracle.ofNat 0) r₁ lk with
+  | none => rfl
+  | some p =>
+    obtain ⟨dict, errs1⟩ := p
+    simp only [Option.map_some, dpRen, ofNat0_order, directAll_ren h]
+    have hv : (dict.map (deRen σ)).map (·.vtx) = dict.map (·.vtx) := by
+      rw [List.map_map]; rfl
+    have hf : closeFuel (dict.map (deRen σ)) = closeFuel dict := by
+      unfold closeFuel; rw [List.length_map]
+    rw [hv, hf]
+    cases closeAll vtxLt (closeFuel dict) (dict.map (·.vtx)) (directAll r₁ dict dict vals0).1 with
+    | none => rfl
+    | some q =>
+      obtain ⟨vals2, cyc⟩ := q
+      simp only [Option.map_some, Option.some.injEq]
+      congr 2
+      funext v
+      rw [dict_get?_ren]
+      cases Dict.get? dict v.key <;> rfl
+
+/-- `process`'s identity errors as the pipeline reads them off `Identity.run`. -/
+def identityErrsOf (reg : Registry) : List Err :=
+  match Identity.run (Oracle.ofNat 0) reg with
+  | .done res _ => res.errs
+  | _ => []
+
+theorem identityErrsOf_eq : identityErrsOf r₂ = identityErrsOf r₁ := by
+  unfold identityErrsOf Identity.run
+  rw [identity_linkAll_ren h]
+  cases Identity.linkAll (Oracle.ofNat 0) r₁ with
+  | none => rfl
+  | some p =>
+    obtain ⟨lk, lerrs⟩ := p
+    simp only [Option.map_some, llRen]
+    by_cases hl : (!lerrs.isEmpty) = true
+    · rw [if_pos hl, if_pos hl]
+    · rw [if_neg hl, if_neg hl]
+      have := resolveIdentities_ren h lk (fun _ => [])
+      cases h1 : resolveIdentities (Oracle.ofNat 0) r₁ lk (fun _ => []) with
+      | none =>
+        rw [h1] at this
+        cases h2 : resolveIdentities (Oracle.ofNat 0) r₂ (lkRen σ lk) (fun _ => []) with
+        | none => rfl
+        | some res₂ => rw [h2] at this; cases this
+      | some res₁ =>
+        rw [h1] at this
+        cases h2 : resolveIdentities (Oracle.ofNat 0) r₂ (lkRen σ lk) (fun _ => []) with
+        | none => rw [h2] at this; cases this
+        | some res₂ =>
+          rw [h2] at this
+          simpa using this
+
+end
+
 end Goyang.Lemmas.LoadOrder
